@@ -40,6 +40,17 @@ def _grid(thorough):
     return out
 
 
+AWARE_OFFSETS = (0, 7200, -12600)
+_FIXED = {}
+
+
+def _fixed(pendulum, off):
+    t = _FIXED.get(off)
+    if t is None:
+        t = _FIXED[off] = pendulum.timezone("UTC") if off == 0 else pendulum.FixedTimezone(off)
+    return t
+
+
 def check_arith(acc, pendulum, u, kw, variants=True):
     A = c03._total_us(kw)
     t = pendulum.Time(*us_fields(u))
@@ -60,6 +71,19 @@ def check_arith(acc, pendulum, u, kw, variants=True):
     acc.c["evaluations"] += 1
     if (r2.hour, r2.minute, r2.second, r2.microsecond) != exp_s or type(r2) is not pendulum.Time:
         acc.mismatch("subtract", "value", case, (r2.hour, r2.minute, r2.second, r2.microsecond), exp_s)
+    # aware receivers naming the same instant of the day with different clock readings (equal and hash-equal to
+    # each other, so anything memoised per receiver must not leak from one to the next)
+    for off in AWARE_OFFSETS:
+        ua = (u + off * US) % DAYUS
+        ta = pendulum.Time(*us_fields(ua), tzinfo=_fixed(pendulum, off))
+        for name, fn, expv in (("add", lambda: ta.add(**kw), us_fields((ua + A) % DAYUS)),
+                               ("subtract", lambda: ta.subtract(**kw), us_fields((ua - A) % DAYUS))):
+            x = fn()
+            acc.c["evaluations"] += 1
+            acc.c["transitions"] += 1
+            got = (x.hour, x.minute, x.second, x.microsecond)
+            if got != expv or type(x) is not pendulum.Time:
+                acc.mismatch(name, "aware-receiver", dict(case, offset=off), [type(x).__name__, got], ["Time", expv])
     if not variants:
         return
     td = dt_.timedelta(**kw)
